@@ -34,10 +34,11 @@ Definition i64_shl (a b : Z) : Z := wrap64 (a * 2 ^ (b mod 64)).
 Definition i64_shr_s (a b : Z) : Z := a / 2 ^ (b mod 64).
 
 (* what emit_div / emit_mod / emit_shift_op produce: the guard, then the instruction.
-   A (hypothetical) guard against MIN / -1 is modelled as making the result undefined. *)
+   g_div_min_neg1: a divisor equal to -1 is emitted as `0 - lhs` (i64.sub, wraps
+   around) and only the other divisors reach i64.div_s. *)
 Definition emit_div (g : guards) (a b : Z) : wres :=
   if g_div_zero g && (b =? 0) then WUndef
-  else if g_div_min_neg1 g && (a =? i64_min) && (b =? -1) then WUndef
+  else if g_div_min_neg1 g && (b =? -1) then WVal (wrap64 (0 - a))
   else i64_div_s a b.
 Definition emit_rem (g : guards) (a b : Z) : wres :=
   if g_rem_zero g && (b =? 0) then WUndef else i64_rem_s a b.
@@ -125,9 +126,20 @@ Definition trunc_f64_s_int (r : option Z) : wres :=
   | Some v => if (i64_min <=? v) && (v <=? i64_max) then WVal v else WTrap
   end.
 
-(* emit_for, Quantifier::Percentage: max_count = trunc(ceil(n * q / 100.0)) *)
-Definition pct_max_count (n q : Z) : wres :=
-  trunc_f64_s_int (f64_ceil_Z (f64_div (f64_mul (f64_of_Z n) (f64_of_Z q)) (f64_of_Z 100))).
+(* emit_for, Quantifier::Percentage: max_count = trunc(ceil(n * q / 100.0)), with the trapping conversion *)
+Definition pct_ceil (n q : Z) : option Z := f64_ceil_Z (f64_div (f64_mul (f64_of_Z n) (f64_of_Z q)) (f64_of_Z 100)).
+Definition pct_max_count (n q : Z) : wres := trunc_f64_s_int (pct_ceil n q).
+
+(* i64.trunc_sat_f64_s applied to an integral value: NaN -> 0, out of range -> the nearest bound; never traps *)
+Definition trunc_sat_f64_s_int (x : f64) (r : option Z) : Z :=
+  match r with
+  | Some v => Z.max i64_min (Z.min i64_max v)
+  | None => match x with S754_infinity false => i64_max | S754_infinity true => i64_min | _ => 0 end
+  end.
+(* what emit_for produces for the conversion that the generated flag names *)
+Definition emit_pct (trapping : bool) (n q : Z) : wres :=
+  if trapping then pct_max_count n q
+  else let x := f64_div (f64_mul (f64_of_Z n) (f64_of_Z q)) (f64_of_Z 100) in WVal (trunc_sat_f64_s_int x (f64_ceil_Z x)).
 
 (* the same computation in exact rational arithmetic: ceil(n*q/100) *)
 Definition pct_exact (n q : Z) : Z := - ((- (n * q)) / 100).
